@@ -20,6 +20,22 @@ CHECKS['C16'] = dict(level='other', ref='4/C16',
 CHECKS['C03'] = dict(level='other', ref='4/C03',
    text="The C++ Verilator generates for hex.sv/processor.sv/memory.sv (CMake arguments) is executed symbolically: settle, then one rising clock from an arbitrary state (pc 21 bit, registers 32 bit, 2^19-word memory as SMT array); hexsim's step (decided against hexb.pdf in C02) runs from the related state; z3 proves registers equal, memory related, syscall request nets as specified, SVC leaving state to the testbench. One clock from an arbitrary related state satisfying a proved-preserved invariant: inductive.",
    note="Trusted: Verilator 5.006 two-state semantics, irsym, z3/cvc5, object graph wired by a generated function instead of the Verilated constructors; successor pc / LDAP result assumed inside the 800000-byte range both implementations provide; invariant oreg&15==0.")
+LNOTE = "Trusted: irsym, z3/cvc5, the independent decoder (walks the source directives with the ISA prefix rule), stubs (fstream as byte sink, BST instead of red-black rebalancing, error constructors without text); programs built by the real directive constructors; shape bound N<=3 quick / N<=4 thorough plus boundary programs."
+CHECKS['C05'] = dict(level='other', ref='4/C05',
+   text="Every program of up to N directives over {label, DATA, imm, relative ref, absolute ref, OPR, FUNC} (modulo renaming; mnemonic classes rotated) plus boundary programs (distances across 16^k, chained references, DATA-absorbed size changes) runs through the real CodeGen/emitBin with all immediates and DATA words symbolic; z3 proves on each path that the independently decoded file has every reference landing on its label, aligned DATA, zero padding and the right header. Bounded in program shape, unbounded in values.",
+   note=LNOTE)
+CHECKS['C17'] = dict(level='other', ref='4/C17',
+   text="On the C05 runs z3 proves for every instruction and DATA directive that the offset, size and label operand the listing prints from equal what the independent decoder found in the emitted bytes.",
+   note=LNOTE + " Text rendering by boost::format is outside.")
+CHECKS['C10'] = dict(level='other', ref='4/C10',
+   text="Bounded totality: every path of CodeGen/emitBin on the C05 shape set plus malformed shapes, of Parser::parseDirective on all token sequences with symbolic numbers, and of the arithmetic kernels on their whole argument range ends in an emitted image or a clean exception; UB, null/out-of-bounds access, indeterminate reads and step-budget exhaustion are violations. The character-level lexer and long inputs are outside.",
+   note=LNOTE)
+CHECKS['C11'] = dict(level='other', ref='4/C11',
+   text="Symbolic memory-sanitizer argument: all heap/stack objects start indeterminate in the engine and any indeterminate value reaching an emitted byte, listing field, branch or address on any path of any shape (all immediates symbolic) is reported; kernels of xcmp with initialiser-less members are run from their real constructors. Environment/ASLR dependence is covered only through this argument.",
+   note=LNOTE)
+CHECKS['C15'] = dict(level='translation_validation', ref='4/C15',
+   text="Symbol tables emitted for every C05 shape are compared with the independently decoded layout; the loader's debug-section reader, lookupSymbol and trace()'s symbol+offset are executed with symbolic ascending offsets and symbolic lastPC and z3 proves the reported symbol/offset; the arguments of trace() per executed instruction are proved equal to the executed byte, address and count; mnemonic strings checked against hexb.pdf.",
+   note=LNOTE + " boost::format cut at operator% (fed values checked, rendering outside).")
 NA = {}
 ALL = [json.loads(l)['id'] for l in open(os.path.join(V, 'properties.jsonl'))]
 PENDING = "check not built yet in this session (planned in DESIGN.md); not claimed until it exists"
